@@ -579,6 +579,28 @@ pub(crate) fn model_events<S: Shape>(
     (out, !stopped)
 }
 
+/// non-asserting comparison (complete runs)
+pub(crate) fn log_is_model(real: &RecSink, want: &RecSink, cap: usize) -> bool {
+    if real.overflow || want.overflow || real.n != want.n {
+        return false;
+    }
+    let mut ok = true;
+    let mut i = 0;
+    while i < cap {
+        if i < want.n {
+            let (r, w) = (&real.ev[i], &want.ev[i]);
+            if r.kind != w.kind || r.off != w.off {
+                ok = false;
+            }
+            if w.kind != K_FINISH && (r.len != w.len || r.lnum != w.lnum || !r.ok) {
+                ok = false;
+            }
+        }
+        i += 1;
+    }
+    ok
+}
+
 /// real log == model log (byte count compared only when the property fixes it)
 pub(crate) fn assert_log_is_model(
     real: &RecSink,
